@@ -116,6 +116,68 @@ func TestC17(t *testing.T) {
 			}
 		}
 	})
+	// result files whose records carry large bodies (a JSON line beyond any line buffer), alone and next to a second file
+	{
+		n := 12
+		rs := make([]vegeta.Result, n)
+		lib := plot.New(plot.Title("t"), plot.Label(plot.ErrorLabeler))
+		for i := range rs {
+			rs[i] = vegeta.Result{Attack: "big", Seq: uint64(i), Code: 200, Timestamp: t0.Add(time.Duration(i) * 7 * time.Millisecond), Latency: time.Duration(i+1) * time.Millisecond, Method: "GET", URL: "http://h/"}
+			if i == 3 {
+				rs[i].Body = bytes.Repeat([]byte("b"), 100000)
+			}
+		}
+		for _, enc := range []string{"json", "gob", "csv"} {
+			for _, split := range []int{0, 5} {
+				lib = plot.New(plot.Title("t"), plot.Label(plot.ErrorLabeler))
+				// arrival order of the command: round robin over the files
+				var files []string
+				parts := [][]vegeta.Result{rs}
+				if split > 0 {
+					parts = [][]vegeta.Result{rs[:split], rs[split:]}
+				}
+				for i := 0; ; i++ {
+					any := false
+					for _, pt := range parts {
+						if i < len(pt) {
+							r := pt[i]
+							lib.Add(&r)
+							any = true
+						}
+					}
+					if !any {
+						break
+					}
+				}
+				lib.Close()
+				var want bytes.Buffer
+				_, libErr := lib.WriteTo(&want)
+				for pi, pt := range parts {
+					f := filepath.Join(dir, fmt.Sprintf("big-%s-%d-%d", enc, split, pi))
+					os.WriteFile(f, cresEncode(enc, pt), 0o644)
+					files = append(files, f)
+				}
+				out := filepath.Join(dir, "big-out.html")
+				err := plotRun(files, 0, "t", out)
+				got, _ := os.ReadFile(out)
+				R.Eval(1)
+				R.Trans(n + 1)
+				R.Distinct(fmt.Sprint("big", enc, split))
+				ctx := map[string]any{"results": n, "encoding": enc, "files": len(parts), "one_record_with_body_bytes": 100000}
+				switch {
+				case (err != nil) != (libErr != nil):
+					ctx["command_error"], ctx["library_error"] = fmt.Sprint(err), fmt.Sprint(libErr)
+					R.Violation("plot-command:error-differs-from-library:large-record:"+enc, ctx)
+				case err == nil && !bytes.Equal(got, want.Bytes()):
+					R.Violation("plot-command:plots-something-else-than-the-library:large-record:"+enc, ctx)
+				}
+				for _, f := range files {
+					os.Remove(f)
+				}
+				os.Remove(out)
+			}
+		}
+	}
 	R.State(len(jobs))
 	R.Finish(t)
 }
